@@ -32,7 +32,7 @@ REQUIRED = {"roundtrip.dictionaries_compared": 50, "roundtrip.variables_compared
 
 def plan(tier, seed):
     n = 8
-    return [{"count": 14 if tier == "quick" else 400, "cs": seed * 100 + i} for i in range(n)]
+    return [{"count": 14 if tier == "quick" else 1200, "cs": seed * 100 + i} for i in range(n)]
 
 
 def mask_fileinfo(text):
